@@ -264,7 +264,7 @@ def proof_status(prop: str, buildinfo: dict) -> dict:
         if b.startswith("Closed"):
             st["axioms"][name] = []
         else:
-            ax = re.findall(r"(?m)^([A-Za-z_][A-Za-z0-9_'.]*)\s*:", b)
+            ax = re.findall(r"(?m)^([A-Za-z_][A-Za-z0-9_'.]*)\s*:", b[len("Axioms:"):])
             st["axioms"][name] = ax
             for a in ax:
                 if a not in ALLOWED_AXIOMS:
